@@ -285,7 +285,7 @@ func init() {
 	vf.Register(&vf.Check{
 		ID: "C09", Title: "EML parsing is total",
 		Run: func(r *vf.Run) {
-			r.SetRule("(a) every byte string of length <= 6 (thorough 7) over {a : SP CR LF ; = \" -} as whole input; (b) structure-aware mutants of 8 valid seeds (plain 8bit/QP/base64, alternative, mixed+attachment, mixed>related>alternative, two hand-written): every slot (header name, value, parameter name/value, boundary line, blank line, continuation) × 22 mutations — all single and all pairs of slot mutations (thorough: triples around Content-Type/Disposition); (c) for every seed and single mutant a reader failing at every offset (seeds) / 8 offsets (mutants), a one-byte reader, and the file entry point; (d) header-value grammars: every token string of length <= 4 (thorough 5) over an address alphabet {a @ b.example < > , : ; \" SP ( ) encoded-word} as From/To/Cc/Bcc/Reply-To/Content-ID value, over a media-type alphabet as Content-Type/-Transfer-Encoding/-Disposition value (top level and inside a multipart part), over a date alphabet as Date value; (e) size and depth sweeps: 16 structural elements (semicolons / parameters / RFC 2231 continuations in a header, nested multiparts closed and unclosed, parts, alternatives, continuation lines, header length, recipients, boundary length, header count, base64 / QP body lines, encoded-words) each repeated N times for N = 0..40, 63..65, 100, 127..129, 255..257, 1000, 1024, 4095..4097 (thorough: up to 100000); oracle: the call returns (no panic) within the watchdog; distinct by input bytes and mode; (f) 45 header-field names (standard and common extension fields, whether or not the parser looks at them) × 31 numeric and degenerate values around the integer boundaries, at the top level and inside multipart parts, through EMLToMsgFromReader / FromString / FromFile; (g) RFC 2047 encoded-words with 35 charset labels (implemented, registered but unimplemented, unknown, empty) × encodings {q, B, invalid} in file names, subject, display name, description and Content-ID")
+			r.SetRule("(a) every byte string of length <= 6 (thorough 7) over {a : SP CR LF ; = \" -} as whole input; (b) structure-aware mutants of 8 valid seeds (plain 8bit/QP/base64, alternative, mixed+attachment, mixed>related>alternative, two hand-written): every slot (header name, value, parameter name/value, boundary line, blank line, continuation) × 22 mutations — all single and all pairs of slot mutations (thorough: triples around Content-Type/Disposition); (c) for every seed and single mutant a reader failing at every offset (seeds) / 8 offsets (mutants), a one-byte reader, and the file entry point; (d) header-value grammars: every token string of length <= 4 (thorough 5) over an address alphabet {a @ b.example < > , : ; \" SP ( ) encoded-word} as From/To/Cc/Bcc/Reply-To/Content-ID value, over a media-type alphabet as Content-Type/-Transfer-Encoding/-Disposition value (top level and inside a multipart part; Content-ID, Content-Description, Content-Type and -Transfer-Encoding also inside attachment and inline-file parts), over a date alphabet as Date value; (e) size and depth sweeps: 16 structural elements (semicolons / parameters / RFC 2231 continuations in a header, nested multiparts closed and unclosed, parts, alternatives, continuation lines, header length, recipients, boundary length, header count, base64 / QP body lines, encoded-words) each repeated N times for N = 0..40, 63..65, 100, 127..129, 255..257, 1000, 1024, 4095..4097 (thorough: up to 100000); oracle: the call returns (no panic) within the watchdog; distinct by input bytes and mode; (f) 45 header-field names (standard and common extension fields, whether or not the parser looks at them) × 31 numeric and degenerate values around the integer boundaries, at the top level and inside multipart parts, through EMLToMsgFromReader / FromString / FromFile; (g) RFC 2047 encoded-words with 35 charset labels (implemented, registered but unimplemented, unknown, empty) × encodings {q, B, invalid} in file names, subject, display name, description and Content-ID")
 			r.Assume("termination is decided by a 30 s per-case watchdog (a bound, not a proof)")
 			dir := filepath.Join(os.Getenv("VERIF_WORK"), fmt.Sprintf("c09-%d", os.Getpid()))
 			_ = os.MkdirAll(dir, 0o755)
@@ -460,10 +460,14 @@ func init() {
 					hdr  string
 					toks []string
 					part bool
+					disp string // the part's Content-Disposition (part context: body part, attachment, inline file)
 				}
-				hvs := []hv{{"From", addrTok, false}, {"To", addrTok, false}, {"Cc", addrTok, false}, {"Bcc", addrTok, false}, {"Reply-To", addrTok, false},
-					{"Content-Type", ctTok, false}, {"Content-Transfer-Encoding", ctTok, false}, {"Content-Disposition", ctTok, false}, {"Date", dateTok, false},
-					{"Content-Type", ctTok, true}, {"Content-Transfer-Encoding", ctTok, true}, {"Content-Disposition", ctTok, true}, {"Content-ID", addrTok, true}}
+				hvs := []hv{{"From", addrTok, false, ""}, {"To", addrTok, false, ""}, {"Cc", addrTok, false, ""}, {"Bcc", addrTok, false, ""}, {"Reply-To", addrTok, false, ""},
+					{"Content-Type", ctTok, false, ""}, {"Content-Transfer-Encoding", ctTok, false, ""}, {"Content-Disposition", ctTok, false, ""}, {"Date", dateTok, false, ""},
+					{"Content-Type", ctTok, true, ""}, {"Content-Transfer-Encoding", ctTok, true, ""}, {"Content-Disposition", ctTok, true, ""}, {"Content-ID", addrTok, true, ""},
+					{hdr: "Content-ID", toks: addrTok, part: true, disp: "inline; filename=e.png"}, {hdr: "Content-ID", toks: addrTok, part: true, disp: "attachment; filename=a.bin"},
+					{hdr: "Content-Description", toks: addrTok, part: true, disp: "inline; filename=e.png"}, {hdr: "Content-Type", toks: ctTok, part: true, disp: "inline; filename=e.png"},
+					{hdr: "Content-Transfer-Encoding", toks: ctTok, part: true, disp: "attachment; filename=a.bin"}}
 				L := 4
 				if r.Thorough {
 					L = 5
@@ -475,8 +479,11 @@ func init() {
 					if h.part {
 						b.WriteString("From: a@b.example\r\nTo: c@d.example\r\nSubject: s\r\nContent-Type: multipart/mixed; boundary=xyz\r\n\r\n--xyz\r\n")
 						pb := map[string]string{"Content-Type": "text/plain; charset=utf-8"}
+						if h.disp != "" {
+							pb["Content-Disposition"] = h.disp
+						}
 						pb[h.hdr] = val
-						for _, n := range []string{"Content-Type", "Content-Transfer-Encoding", "Content-Disposition", "Content-ID"} {
+						for _, n := range []string{"Content-Type", "Content-Transfer-Encoding", "Content-Disposition", "Content-ID", "Content-Description"} {
 							if v, ok := pb[n]; ok {
 								b.WriteString(n + ": " + v + "\r\n")
 							}
